@@ -13,6 +13,7 @@ def run(tree, rep, tier):
     grammar(rep, T, T.stab, rules=("T2", "T3"))
     T5_T6_cost_depth(rep, T, T.stab)
     flow = Flow(tree)
+    flow.describe(rep)
     K1_loader(rep, flow, T, tier)
     K2_reader(rep, flow)
     P6_conservation(rep, flow, APIS, tables=T)
